@@ -700,6 +700,117 @@ def apply_rule(sf, a, b, rule, edits):
     return hits
 
 
+def rewrite_for_continue(sf, a, b, edits):
+    """Rule RC (automatic, semantics-preserving): Verus rejects `continue` inside `for` loops. Where an `if C { ..; continue; }` statement
+    (no `else`) stands in a block P that is in tail position of the loop body (P is the loop body, or the block of an `if` / `else` that is
+    the last statement of its parent, up to the loop body), the statement becomes `if C { .. } else { <rest of P> }`. Other shapes are
+    left alone (Verus then rejects the function: undecided). Returns the number of rewrites."""
+    toks = sf.toks
+    sig = [k for k in range(a, b) if toks[k].kind not in TRIVIA]
+    pos = {k: i for i, k in enumerate(sig)}
+    hits = 0
+
+    def enclosing_block(k):
+        # innermost `{` .. `}` pair (token indices) around token k inside [a, b)
+        depth = 0
+        j = k - 1
+        while j >= a:
+            t = toks[j].text
+            if t == "}" and j in sf.br:
+                j = sf.br[j] - 1
+                continue
+            if t == "{" and j in sf.br and sf.br[j] > k:
+                return j, sf.br[j]
+            j -= 1
+        return None
+
+    def block_owner(open_k):
+        """keyword that owns the block starting at `{` open_k: 'for', 'if', 'else', 'while', 'loop', 'match-arm', 'closure', or None"""
+        i = pos[open_k] - 1
+        # walk back over the header (condition / pattern / iterator expression) to its keyword
+        depth = 0
+        while i >= 0:
+            k = sig[i]
+            t = toks[k].text
+            if t in ")]" and k in sf.br:
+                i = pos.get(sf.br[k], i) - 1
+                continue
+            if t == "}" and k in sf.br:
+                if toks[sig[i + 1]].text == "else" if i + 1 < len(sig) else False:
+                    return "else", k
+                return None, k
+            if t in ("{", ";"):
+                return None, k
+            if t == "else":
+                return "else", k
+            if t in ("for", "while", "loop", "if", "match"):
+                # `else if`: the owner is the `if`
+                return t, k
+            if t == "=>" or t == "|":
+                return "other", k
+            i -= 1
+        return None, None
+
+    for k in sig:
+        if toks[k].text != "continue" or toks[k].kind != "ident":
+            continue
+        nx = sig[pos[k] + 1] if pos[k] + 1 < len(sig) else None
+        if nx is None or toks[nx].text != ";":
+            continue
+        b1 = enclosing_block(k)
+        if not b1:
+            continue
+        o1, c1 = b1
+        # `continue;` must be the last statement of its block
+        if sig[pos[nx] + 1] != c1:
+            continue
+        owner, kw = block_owner(o1)
+        if owner != "if":
+            continue
+        after = sig[pos[c1] + 1] if pos[c1] + 1 < len(sig) else None
+        if after is not None and toks[after].text == "else":
+            continue
+        # `else if`-chains are not handled: the `if` must start a statement
+        prev = sig[pos[kw] - 1]
+        if toks[prev].text not in ("{", ";", "}"):
+            continue
+        P = enclosing_block(kw)
+        if not P:
+            continue
+        po, pc = P
+        # P must be in tail position of a `for` loop body
+        cur_o, cur_c = po, pc
+        ok = False
+        for _ in range(12):
+            own, okw = block_owner(cur_o)
+            if own == "for":
+                ok = True
+                break
+            if own not in ("if", "else"):
+                break
+            # the if / else statement owning this block must be the last statement of its parent block
+            parent = enclosing_block(okw)
+            if not parent:
+                break
+            nxt = sig[pos[cur_c] + 1]
+            if toks[nxt].text == "else":
+                break
+            if nxt != parent[1]:
+                break
+            cur_o, cur_c = parent
+        if not ok:
+            continue
+        try:
+            edits.replace(k, nx + 1, [Piece("")])
+            if after is not None and after != pc:
+                edits.insert_before(after, [Piece(" else { ", label="kw")])
+                edits.insert_before(pc, [Piece(" } ", label="kw")])
+            hits += 1
+        except ExtractError:
+            pass
+    return hits
+
+
 def fn_parts(it):
     """(return-arrow token index or None, index one past return type, body_open)"""
     sf = it.sf
@@ -1439,6 +1550,10 @@ def render_item(d, it, repo_root, registry):
     cfg_t, cfg_f = cfg_edits(sf, a, cfg_hi, FEATURES, ed)
     for rule, _n in d.rules:
         rule_hits[rule] = apply_rule(sf, a, b, rule, ed)
+    if d.mode == "fn" and it.kind == "fn" and it.body_open is not None:
+        rc = rewrite_for_continue(sf, it.body_open, it.body_close + 1, ed)
+        if rc:
+            rule_hits["RC"] = rc
     # attributes to drop
     if d.dropattrs:
         k = it.start
